@@ -15,39 +15,35 @@ structure Solvent (s : St) : Prop where
 theorem complete_some {s s' : St} {u k i x y : Nat} {act : Act} (h : complete s u k i act x y = some s') :
     ∃ act', act'.state = 1 ∧ s'.acts = (setAct s u k i (some act')).acts ∧ s'.users = s.users ∧
       s'.now = s.now ∧ s'.priceTs = s.priceTs ∧ (Solvent s → Solvent s') := by
-  unfold complete at h
-  split at h
-  · cases h
+  rcases k with _ | _ | _ | _ | k
+  · simp only [complete] at h; simp at h; subst h
     exact ⟨_, rfl, rfl, rfl, rfl, rfl, fun hs => ⟨by simp [setAct]; have := hs.long; omega,
       by simp [setAct]; have := hs.short; omega, by simp [setAct]; have := hs.supply; omega⟩⟩
-  · split at h
-    · split at h
-      · cases h
-      · rename_i hg
-        cases h
-        exact ⟨_, rfl, rfl, rfl, rfl, rfl, fun hs => ⟨by simp [setAct]; have := hs.long; omega,
-          by simp [setAct]; have := hs.short; omega, by simp [setAct]; omega⟩⟩
-    · split at h
-      · split at h
-        · cases h
-        · rename_i hg
-          cases h
-          exact ⟨_, rfl, rfl, rfl, rfl, rfl, fun hs => ⟨by simp [setAct]; have := hs.long; omega,
-            by simp [setAct]; have := hs.short; omega, by simp [setAct]; exact hs.supply⟩⟩
-      · split at h
-        · cases h
-        · rename_i hg
-          cases h
-          exact ⟨_, rfl, rfl, rfl, rfl, rfl, fun hs => ⟨by simp [setAct]; have := hs.long; omega,
-            by simp [setAct]; have := hs.short; omega, by simp [setAct]; exact hs.supply⟩⟩
+  · simp only [complete] at h; simp at h
+    obtain ⟨hg, rfl⟩ := h
+    exact ⟨_, rfl, rfl, rfl, rfl, rfl, fun hs => ⟨by simp [setAct]; have := hs.long; omega,
+      by simp [setAct]; have := hs.short; omega, by simp [setAct]; omega⟩⟩
+  · simp only [complete] at h; simp at h
+    obtain ⟨hg, rfl⟩ := h
+    exact ⟨_, rfl, rfl, rfl, rfl, rfl, fun hs => ⟨by simp [setAct]; have := hs.long; omega,
+      by simp [setAct]; have := hs.short; omega, by simp [setAct]; exact hs.supply⟩⟩
+  · simp only [complete] at h; simp at h
+    obtain ⟨hg, rfl⟩ := h
+    exact ⟨_, rfl, rfl, rfl, rfl, rfl, fun hs => ⟨by simp [setAct]; have := hs.long; omega,
+      by simp [setAct]; have := hs.short; omega, by simp [setAct]; exact hs.supply⟩⟩
+  · simp only [complete] at h; simp at h; subst h
+    exact ⟨_, rfl, rfl, rfl, rfl, rfl, fun hs => ⟨by simp [setAct]; have := hs.long; omega,
+      by simp [setAct]; exact hs.short, by simp [setAct]; exact hs.supply⟩⟩
 
 theorem exec_some {s s' : St} {who : Who} {u k i fee x y : Nat} {throw fail : Bool} {o : Outcome} {paid : Nat}
-    (h : exec s who u k i fee throw fail x y = some (s', o, paid)) :
-    who = .keeper ∧ ∃ act, s.acts u k i = some act ∧ act.state = 0 ∧
+    {hard : Bool} (h : exec s who u k i fee throw fail x y hard = some (s', o, paid)) :
+    hard = false ∧ who = .keeper ∧ ∃ act, s.acts u k i = some act ∧ act.state = 0 ∧
       paid = (if fee ≤ act.execLamports then fee else act.execLamports) ∧
       ((o = .cancelled ∧ throw = false ∧ s' = setAct s u k i (some { act with state := 2 })) ∨
        (o = .completed ∧ act.soft = false ∧ fail = false ∧ complete s u k i act x y = some s')) := by
   unfold exec at h
+  split at h; · cases h
+  rename_i hhard
   split at h; · cases h
   rename_i hw
   split at h
@@ -67,7 +63,7 @@ theorem exec_some {s s' : St} {who : Who} {u k i fee x y : Nat} {throw fail : Bo
       cases throw with
       | true => simp at he
       | false => simp at he; obtain ⟨a, b, c⟩ := he; exact ⟨b.symm, rfl, a.symm, c.symm⟩
-    refine ⟨by simpa using hw, act, hact, by simpa using hst, ?_⟩
+    refine ⟨by simpa using hhard, by simpa using hw, act, hact, by simpa using hst, ?_⟩
     simp only at h
     split at h
     · obtain ⟨a, b, c, d⟩ := hsoft rfl h
@@ -130,11 +126,11 @@ theorem solvent_step {s : St} (hs : Solvent s) (op : Op) : Solvent (step s op).1
     · simp only [step, hc]
       obtain ⟨_, l, sh, m, _, _, rfl⟩ := create_some hc
       exact ⟨hs.long, hs.short, hs.supply⟩
-  | exec who u k i fee throw fail x y =>
-    rcases Option.eq_none_or_eq_some (exec s who u k i fee throw fail x y) with hc | ⟨⟨s', o, paid⟩, hc⟩
+  | exec who u k i fee throw fail x y hard =>
+    rcases Option.eq_none_or_eq_some (exec s who u k i fee throw fail x y hard) with hc | ⟨⟨s', o, paid⟩, hc⟩
     · simp only [step, hc]; exact hs
     · simp only [step, hc]
-      obtain ⟨_, act, _, _, _, hcase⟩ := exec_some hc
+      obtain ⟨_, _, act, _, _, _, hcase⟩ := exec_some hc
       rcases hcase with ⟨_, _, rfl⟩ | ⟨_, _, _, hcomp⟩
       · exact ⟨hs.long, hs.short, hs.supply⟩
       · obtain ⟨_, _, _, _, _, _, hsol⟩ := complete_some hcomp
@@ -173,10 +169,10 @@ theorem step_counts (s : St) (op : Op) (u k i : Nat) :
         have e : (isCreated u k i (Event.created a b c)) = false := by
           simp only [isCreated]; by_cases h1 : a = u <;> by_cases h2 : b = k <;> by_cases h3 : c = i <;> simp_all
         simp [step, hc, isClosed, isExecuted, e, openCount, pendingCount, acts_setAct, setUser, hid']
-  | exec who a b c fee throw fail x y =>
-    rcases Option.eq_none_or_eq_some (exec s who a b c fee throw fail x y) with hc | ⟨⟨s', o, paid⟩, hc⟩
+  | exec who a b c fee throw fail x y hard =>
+    rcases Option.eq_none_or_eq_some (exec s who a b c fee throw fail x y hard) with hc | ⟨⟨s', o, paid⟩, hc⟩
     · simp [step, hc, isClosed, isCreated, isExecuted]
-    · obtain ⟨_, act, hact, hst, _, hcase⟩ := exec_some hc
+    · obtain ⟨_, _, act, hact, hst, _, hcase⟩ := exec_some hc
       have hacts : ∃ act', act'.state ≠ 0 ∧ s'.acts = (setAct s a b c (some act')).acts := by
         rcases hcase with ⟨_, _, rfl⟩ | ⟨_, _, _, hcomp⟩
         · exact ⟨_, by simp, rfl⟩
@@ -225,7 +221,7 @@ def WellFormed (s : St) : Prop :=
 
 theorem escrowOf_out {usr : User} {k a b l sh m : Nat} (h : escrowOf usr k a b = some (l, sh, m)) :
     outSide k ⟨0, l, sh, m, 0, 0, false, 0⟩ = (0, 0, 0) := by
-  rcases k with _ | _ | _ | k
+  rcases k with _ | _ | _ | _ | k
   · simp [escrowOf] at h
     obtain ⟨_, _, _, hm⟩ := h; simp [outSide, ← hm]
   · simp [escrowOf] at h
@@ -234,12 +230,13 @@ theorem escrowOf_out {usr : User} {k a b l sh m : Nat} (h : escrowOf usr k a b =
     obtain ⟨_, _, hs, _⟩ := h; simp [outSide, ← hs]
   · simp [escrowOf] at h
     obtain ⟨_, hl, _, _⟩ := h; simp [outSide, ← hl]
+  · simp [outSide]
 
 theorem complete_wf {s s' : St} {u k i x y : Nat} {act : Act} (h : complete s u k i act x y = some s')
     (hout : outSide k act = (0, 0, 0)) :
     ∃ act', s'.acts = (setAct s u k i (some act')).acts ∧ act'.state = 1 ∧ inSide k act' = (0, 0, 0) ∧
       act'.receiver = act.receiver := by
-  rcases k with _ | _ | _ | k
+  rcases k with _ | _ | _ | _ | k
   · simp only [complete] at h; simp at h; subst h
     exact ⟨_, rfl, rfl, by simp [inSide], rfl⟩
   · simp only [complete] at h; simp at h
@@ -250,6 +247,8 @@ theorem complete_wf {s s' : St} {u k i x y : Nat} {act : Act} (h : complete s u 
     exact ⟨_, rfl, rfl, by simp [inSide], rfl⟩
   · simp only [complete] at h; simp at h
     obtain ⟨_, rfl⟩ := h
+    exact ⟨_, rfl, rfl, by simp [inSide], rfl⟩
+  · simp only [complete] at h; simp at h; subst h
     exact ⟨_, rfl, rfl, by simp [inSide], rfl⟩
 
 theorem wf_step {s : St} (hw : WellFormed s) (op : Op) : WellFormed (step s op).1 := by
@@ -271,11 +270,11 @@ theorem wf_step {s : St} (hw : WellFormed s) (op : Op) : WellFormed (step s op).
         have := escrowOf_out he
         simpa [outSide] using this
       · exact hw a b' c act hact
-  | exec who u k i fee throw fail x y =>
-    rcases Option.eq_none_or_eq_some (exec s who u k i fee throw fail x y) with hc | ⟨⟨s', o, paid⟩, hc⟩
+  | exec who u k i fee throw fail x y hard =>
+    rcases Option.eq_none_or_eq_some (exec s who u k i fee throw fail x y hard) with hc | ⟨⟨s', o, paid⟩, hc⟩
     · simp only [step, hc]; exact hw
     · simp only [step, hc]
-      obtain ⟨_, act, hact, hst, _, hcase⟩ := exec_some hc
+      obtain ⟨_, _, act, hact, hst, _, hcase⟩ := exec_some hc
       have hout := (hw u k i act hact).2 (by omega)
       rcases hcase with ⟨_, _, rfl⟩ | ⟨_, _, _, hcomp⟩
       · intro a b c act2 h2
